@@ -542,7 +542,11 @@ class Engine:
             if self.spec_decls and not self.spec_defining:
                 for ax in axioms.ground_unfold(self, new + [extra], depth=2, done=st["done"]):
                     s.add(ax)
-            res = s.check(extra)
+            try:
+                res = self._guarded_check(s, extra)
+            except (z3.Z3Exception, MemoryError):
+                res = z3.unknown
+                run.inc = None
         else:
             s = z3.Solver()
             s.set("timeout", self.feas_timeout_ms)
@@ -552,7 +556,10 @@ class Engine:
             if self.spec_decls and not self.spec_defining:
                 for ax in axioms.ground_unfold(self, list(facts) + [extra], depth=2):
                     s.add(ax)
-            res = s.check()
+            try:
+                res = self._guarded_check(s)
+            except (z3.Z3Exception, MemoryError):
+                res = z3.unknown
         self.stats["feas_checks"] += 1
         self.stats["feas_time"] += time.time() - t0
         ok = res != z3.unsat
@@ -561,6 +568,31 @@ class Engine:
             self.stats["feas_unknown_time"] = self.stats.get("feas_unknown_time", 0.0) + time.time() - t0
         self.feas_cache[key] = (ok, list(facts), extra)
         return ok
+
+    def _guarded_check(self, s, *assumptions):
+        import threading
+        ctx = z3.main_ctx()
+        fired = []
+
+        def stop():
+            fired.append(1)
+            try:
+                ctx.interrupt()
+            except Exception:
+                pass
+        t = threading.Timer(self.feas_timeout_ms / 1000.0 + 1.0, stop)
+        t.daemon = True
+        t.start()
+        try:
+            r = s.check(*assumptions)
+        finally:
+            t.cancel()
+        if fired:
+            self.stats["feas_interrupted"] = self.stats.get("feas_interrupted", 0) + 1
+            if self.run is not None:
+                self.run.inc = None      # an interrupted incremental solver is rebuilt
+            return z3.unknown
+        return r
 
     def feasible_strong(self, facts, extra):
         """Second opinion for dispatch decisions: quantified definitional axioms (e-matching can
@@ -578,7 +610,12 @@ class Engine:
         names = axioms.spec_symbols(self, list(facts) + [extra])
         for ax in axioms.spec_axioms(self, names):
             s.add(ax)
-        ok = s.check() != z3.unsat
+        from .verify import _checked
+        import time as _t
+        _t0 = _t.time()
+        ok = _checked(s, 600) != z3.unsat
+        if _t.time() - _t0 > 3:
+            self.stats["feas_strong_slow"] = self.stats.get("feas_strong_slow", 0) + 1
         self.stats["feas_strong"] = self.stats.get("feas_strong", 0) + 1
         self.feas_cache[key] = (ok, list(facts), extra)
         return ok
